@@ -595,6 +595,8 @@ class Sequence:
                 int(ele), sequencedict["jump_target"]
             )
             new_instance.setSequencingGoto(int(ele), sequencedict["Go to"])
+        for key, val in awgspecs.items():
+            new_instance._awgspecs[key] = val
         new_instance.setSR(SR)
         return new_instance
 
